@@ -177,6 +177,36 @@ func TestC07(t *testing.T) {
 	r.Assume("the verif hook is called at every site that scores a node as mate or stalemate; Statistics().Checkmates+Stalemates == number of hook calls is checked so that a site without hook cannot hide")
 	hx.Sub(r, "searches", r.N(2500, 12000), func(t *rapid.T) c07Case { return genC07(t, r.N(6, 8)) }, propC07)
 
+	// every position of the forced-reply pool as an INTERIOR node: its predecessor is searched under the default
+	// configuration (all pruning on), deep enough that the forced node is searched with pruning below it
+	hx.Enum(r, "forced-interior", false, func(yield func(c07Case) bool) {
+		for i, fc := range hx.ForcedPool() {
+			if fc.Pred == "" {
+				continue
+			}
+			for _, d := range []int{3 + i%2, 5 + i%3} {
+				if r.Quick() && d > 5 {
+					d = 5
+				}
+				if !yield(c07Case{Play: hx.Playout{Start: fc.Pred}, Settings: hx.SettingsVec{}, Depth: d, Nodes: 30000}) {
+					return
+				}
+			}
+		}
+	}, propC07)
+
+	// stalemate-trick endings (near-stalemates with a pinned pawn several plies below the root; the two roots with
+	// which a seeded change of round 5 was demonstrated, kept as regression cases) under the default configuration
+	hx.Enum(r, "stalemate-trick-endings", false, func(yield func(c07Case) bool) {
+		for _, f := range []string{"7k/7p/5K2/8/7R/8/8/4r3 b - - 0 1", "k1K5/p7/R7/8/8/8/8/n7 b - - 0 1", "K7/P7/5k2/8/7r/8/8/4R3 w - - 0 1", "K1k5/P7/r7/8/8/8/8/N7 w - - 0 1"} {
+			for d := 4; d <= 7; d++ {
+				if !yield(c07Case{Play: hx.Playout{Start: f}, Settings: hx.SettingsVec{}, Depth: d, Nodes: 200000}) {
+					return
+				}
+			}
+		}
+	}, propC07)
+
 	// converse: terminal roots (mates and stalemates from the corpus and found by playouts)
 	hx.Sub(r, "terminal-roots", r.N(150, 1500), func(t *rapid.T) c07Case {
 		// walk until a terminal position is hit
